@@ -206,10 +206,41 @@ func aliasSet(fn *ssa.Function, e ssa.Value) map[ssa.Value]bool {
 // condEffect interprets an If condition with respect to the tracked error.
 // It returns the states for the true and false successor given the incoming state.
 func condEffect(cond ssa.Value, A map[ssa.Value]bool, in efState, cfg errFlowCfg) (t, f efState) {
+	return condEffectD(cond, A, in, cfg, 0)
+}
+
+func boolConst(v ssa.Value) (bool, bool) {
+	c, ok := v.(*ssa.Const)
+	if !ok || c.Value == nil {
+		return false, false
+	}
+	switch c.Value.String() {
+	case "true":
+		return true, true
+	case "false":
+		return false, true
+	}
+	return false, false
+}
+
+func condEffectD(cond ssa.Value, A map[ssa.Value]bool, in efState, cfg errFlowCfg, depth int) (t, f efState) {
 	t, f = in, in
+	if depth > 6 {
+		return
+	}
 	switch c := cond.(type) {
 	case *ssa.BinOp:
 		if c.Op == token.NEQ || c.Op == token.EQL {
+			// comparison of a boolean with a constant (tagless switch: `true == cond`)
+			for _, pair := range [][2]ssa.Value{{c.X, c.Y}, {c.Y, c.X}} {
+				if bv, ok := boolConst(pair[1]); ok {
+					tt, ff := condEffectD(pair[0], A, in, cfg, depth+1)
+					if (c.Op == token.EQL) == bv {
+						return tt, ff
+					}
+					return ff, tt
+				}
+			}
 			var isErr bool
 			if A[c.X] && isNilConst(c.Y) || A[c.Y] && isNilConst(c.X) {
 				isErr = true
@@ -235,9 +266,6 @@ func condEffect(cond ssa.Value, A map[ssa.Value]bool, in efState, cfg errFlowCfg
 				if nn == stU {
 					nn = stN
 				}
-				if nn == stZ { // already known nil; comparison is moot
-					nn = stZ
-				}
 				if c.Op == token.NEQ {
 					return nn, stZ
 				}
@@ -246,9 +274,63 @@ func condEffect(cond ssa.Value, A map[ssa.Value]bool, in efState, cfg errFlowCfg
 		}
 	case *ssa.UnOp:
 		if c.Op == token.NOT {
-			f2, t2 := condEffect(c.X, A, in, cfg)
+			f2, t2 := condEffectD(c.X, A, in, cfg, depth+1)
 			return t2, f2
 		}
+	case *ssa.Phi:
+		// value of a short-circuit expression: a && b -> phi(false, b); a || b -> phi(true, b).
+		// When the phi is true it was reached through a constant-true edge (the controlling test on that
+		// predecessor held) or through an operand that is itself true; the implied state is the weakest of those.
+		best := efState(-1)
+		known := true
+		for i, e := range c.Edges {
+			var st efState
+			if bv, ok := boolConst(e); ok {
+				if !bv {
+					continue // this edge makes the phi false
+				}
+				// constant true: the predecessor's controlling condition decided it
+				pr := c.Block().Preds[i]
+				iff, isIf := pr.Instrs[len(pr.Instrs)-1].(*ssa.If)
+				if !isIf {
+					known = false
+					break
+				}
+				tt, ff := condEffectD(iff.Cond, A, in, cfg, depth+1)
+				if pr.Succs[0] == c.Block() {
+					st = tt
+				} else {
+					st = ff
+				}
+			} else {
+				st, _ = condEffectD(e, A, in, cfg, depth+1)
+				// the operand is only evaluated when the earlier operands of the && chain held: conditions whose
+				// true edge dominates the predecessor block are known there
+				pr := c.Block().Preds[i]
+				for d := pr; d != nil && d.Idom() != nil; d = d.Idom() {
+					id := d.Idom()
+					iff, isIf := id.Instrs[len(id.Instrs)-1].(*ssa.If)
+					if !isIf || len(d.Preds) != 1 {
+						continue
+					}
+					tt, ff := condEffectD(iff.Cond, A, in, cfg, depth+1)
+					k := ff
+					if id.Succs[0] == d {
+						k = tt
+					}
+					if k < st {
+						st = k
+					}
+				}
+			}
+			if st > best {
+				best = st
+			}
+		}
+		if known && best >= 0 {
+			t = best
+		}
+		return t, in
 	case *ssa.Call:
 		name := staticCalleeName(c.Common())
 		if (name == "errors.Is" || name == "errors.As") && len(c.Call.Args) == 2 && A[c.Call.Args[0]] {
@@ -620,6 +702,8 @@ func valueLabel(v ssa.Value) string {
 	case *ssa.ChangeType:
 		return valueLabel(x.X)
 	case *ssa.Convert:
+		return valueLabel(x.X)
+	case *ssa.TypeAssert:
 		return valueLabel(x.X)
 	case *ssa.Extract:
 		return fmt.Sprintf("%s#%d", valueLabel(x.Tuple), x.Index)
